@@ -2,6 +2,7 @@ pub mod checks;
 pub mod driver;
 pub mod genr;
 pub mod hostile;
+pub mod logcap;
 pub mod model;
 pub mod node;
 pub mod rng;
